@@ -795,7 +795,7 @@ def run(ctx):
         "float tests of the comparator re-expressed over Q: d <= min(a, r*x) and float(a) <= float(b)*r for r in {0, 0.2, 0.5, 1}, round(0.2*n) half-to-even (exact for the integer ranges "
         "that occur; boundary values are part of the correspondence); select_best_among_inconsistent is modelled bit-exactly with primitive floats (correspondence only)",
         "assignment_ok never demands more than the property: `compatible` allows read ends up to minor_exon_extension beyond the flanking exons; a read is judged as positive only if it "
-        "follows its source isoform strictly (every site within delta, ends inside the exons, every exon at least minimal_exon_overlap long) and clauses 3/4 only if no other annotated "
+        "follows its source isoform strictly (every site within delta, ends inside the exons, every exon at least 2*minimal_exon_overlap long - a shorter exon can straddle a split-exon boundary with fewer than minimal_exon_overlap bases on either side and then matches no block) and clauses 3/4 only if no other annotated "
         "intron is strictly closer to one of its junctions; as negative only if, for every isoform of the chromosome, it shares no exon, retains an intron longer than 2*micro_intron_length, "
         "has an end more than 2*minor_exon_extension outside the flanking exon (short introns bridged), or has a long intron that none of the doubled tolerance branches explains, or carries a "
         "polyA/polyT tail inside the last exon of the isoform (of the tail's strand) more than 2*apa_delta before its 3' end; full-length = the read spans all introns of T, and for a mono-exonic T "
